@@ -384,3 +384,70 @@ def summarize(pairs):
         kinds.add(sig)
     cov["distinct"] = len(kinds)
     return cov
+
+
+# ----------------------------------------------------------------------------- TLA+ catalogue
+def shapes_tla(cat):
+    """Render the driver's graph catalogue as spec/CopyShapes.tla (the runner checks that the
+    committed module equals this rendering, so (D) and the driver talk about the same graphs)."""
+    def s(x):
+        return '"%s"' % x
+
+    def setof(xs):
+        return "{" + ", ".join(xs) + "}"
+
+    out = ["----------------------------- MODULE CopyShapes -----------------------------",
+           "(* Graph catalogue of C03 / C04 / C14, generated from harness/cmd/copydrv      *)",
+           "(* (content.go: buildShape) by tools/props/copy_common.py:shapes_tla; the      *)",
+           "(* runner refuses to run when this file and the driver disagree.  Per shape:   *)",
+           "(* root; mans: manifest -> kind; kids: manifest -> sequence of descriptors     *)",
+           "(* <<child, role, platform, inline>> in document order (duplicates kept);      *)",
+           "(* refs: <<referrer, subject, artifact type>>; dtags: <<tag, on, to>>;         *)",
+           "(* fbs: the fall-back referrer indexes <<index, subject>> a source without     *)",
+           "(* referrers API holds under the tag sha256-<hex of subject>.                  *)",
+           "EXTENDS TLC", ""]
+    names = []
+    for sh in cat.values():
+        mans = [n for n in sh["nodes"] if n["kind"] != "blob"]
+        blobs = [n["name"] for n in sh["nodes"] if n["kind"] == "blob"]
+        refs = [(n["name"], n["subject"], "sbom" if n.get("atype", "").endswith("sbom.v1") else "sig")
+                for n in sh["nodes"] if n.get("subject")]
+        subjects = []
+        for r in refs:
+            if r[1] not in subjects:
+                subjects.append(r[1])
+        kinds = " @@ ".join("(%s :> %s)" % (s(n["name"]), s(n["kind"])) for n in mans)
+        kids = []
+        for n in mans:
+            seq = ", ".join("<<%s, %s, %s, %s>>" % (s(e["c"]), s(e["role"]), s(e.get("plat", "")),
+                                                   "TRUE" if e.get("inline") else "FALSE") for e in n["edges"])
+            kids.append("(%s :> <<%s>>)" % (s(n["name"]), seq))
+        for sub in subjects:
+            seq = ", ".join("<<%s, \"entry\", \"\", FALSE>>" % s(r[0]) for r in refs if r[1] == sub)
+            kids.append("(%s :> <<%s>>)" % (s("FB:" + sub), seq))
+        nm = "Shape_" + sh["name"]
+        names.append(sh["name"])
+        out.append("%s == [root |-> %s," % (nm, s(sh["root"])))
+        out.append("  blobs |-> %s," % setof(s(b) for b in blobs))
+        out.append("  mans |-> %s," % kinds)
+        out.append("  kids |-> %s," % " @@\n           ".join(kids))
+        out.append("  refs |-> %s," % setof("<<%s, %s, %s>>" % (s(a), s(b), s(c)) for a, b, c in refs))
+        out.append("  dtags |-> %s," % setof("<<%s, %s, %s>>" % (s(d["sym"]), s(d["of"]), s(d["to"])) for d in (sh.get("dtags") or [])))
+        out.append("  fbs |-> %s," % setof("<<%s, %s>>" % (s("FB:" + x), s(x)) for x in subjects))
+        out.append("  order |-> <<%s>>]" % ", ".join(s(n["name"]) for n in sh["nodes"]))
+        out.append("")
+    out.append("Shapes == " + " @@ ".join("(%s :> Shape_%s)" % (s(n), n) for n in names))
+    out.append("=============================================================================")
+    return "\n".join(out) + "\n"
+
+
+def check_shapes(engine):
+    want = shapes_tla(engine.cat)
+    fn = os.path.join(vlib.SPEC, "CopyShapes.tla")
+    try:
+        have = open(fn).read()
+    except OSError:
+        have = ""
+    if have != want:
+        raise vlib.ToolError("spec/CopyShapes.tla does not describe the driver's catalogue; regenerate it with "
+                             "tools/props/copy_common.py (shapes_tla) and review (D)")
